@@ -276,6 +276,11 @@ def _retype(v):
     return v
 
 
+def helper_thread_logs(slug: str) -> bool:
+    """does the generated run body of this task class log from a helper thread (decided by the class name: no scenario field)"""
+    return int(sha(('tlog:' + slug).encode() if isinstance(slug, str) else slug)[:2], 16) < 56
+
+
 def make_value_rev(kind: str, h: str, e: int):
     """value of a computation that also reads an external resource (not a declared input) at revision `e`; revision 0 is
     make_value(kind, h). Later revisions are biased to what makes an incomplete replacement of a stored result visible:
